@@ -75,6 +75,7 @@ type Session struct {
 	// GateHooks: requests are also parked at the hooks inside getGengine (after each emptiness read, while spinning)
 	GateHooks bool   `json:"gatehooks"`
 	CheckV    bool   `json:"checkv"`
+	Silent    bool   `json:"silent"`
 	Script    []Step `json:"script"`
 	Timeout   int    `json:"timeout"`
 }
@@ -467,6 +468,7 @@ func (d *drv) quiesce() {
 func runSession(s *Session, quiet time.Duration, seed int64) ([]obs.Event, bool) {
 	all := []obs.Event{{"ev": "session", "id": s.ID}}
 	o := obs.New(s.Gated, quiet, seed+int64(s.ID)*271)
+	o.Silent = s.Silent
 	d := &drv{o: o, byGo: map[int64]int64{}, spun: map[int64]bool{}, reqs: map[int64]*Req{}, sess: s, trigged: map[int64]bool{}}
 	D.Store(d)
 	text := versionText(s.Rules)
